@@ -7,10 +7,11 @@
    transfer of the sender's CURRENT revision with its ancestry (rev_diff, then PutExistingRev with
    noconflicts; the active side resolves with DefaultConflictResolver).  [mkdig] is md5 over
    (parent id, body); the only fact used about it is collision freedom. *)
-From SG Require Import C10.HLV C10.HLVProofs C06.VV C06.VVProofs C06.VVInv C06.VVConv.
+From SG Require Import C10.HLV C10.HLVProofs C06.VV C06.VVProofs C06.VVInv C06.VVConv C06.VVF C06.VVFProofs
+  C06.VVG C06.VVGProofs C06.VVGInv C06.VVGConv.
 From SG Require Import Base.Prelude C04.RevId C04.RevTree C04.WfProofs
   C04.PushProofs C06.Replication C06.ResolverProofs C06.InvProofs C06.TransferProofs C06.ConvDefs C06.ConvThm C06.SysProofs
-  C06.UnionProofs.
+  C06.UnionProofs C06.RedeliverProofs C06.Shapes.
 From Coq Require Import Permutation.
 Open Scope N_scope.
 
@@ -90,6 +91,17 @@ Theorem C06_isgr_default_converges_partial : forall mkdig, collision_free mkdig 
 Proof. exact isgr_converges_live. Qed.
 Print Assumptions C06_isgr_default_converges_partial.
 
+(* ---- the same for EVERY resolver: localWins, remoteWins, a custom resolver modelled as an ARBITRARY function of the
+   two candidates (tombstone flag, revision id, body of each) answering local / remote / a merged body -- which may
+   even change from one pull to the next (every PullP of the history carries its own).  [no_delete] also excludes
+   resolvers that answer the tombstone body as their merge result (a JavaScript resolver returning null) ---- *)
+Theorem C06_converges_any_resolver_partial : forall mkdig, collision_free mkdig -> forall pol, policy_ok pol ->
+  forall ops d, Forall no_delete ops ->
+  let s := run mkdig (run mkdig sys0 ops) [PullP pol d; Push d] in
+  obs (fst (s d)) = obs (snd (s d)).
+Proof. exact isgr_converges_live_pol. Qed.
+Print Assumptions C06_converges_any_resolver_partial.
+
 (* The full statement (deletes and resurrections allowed) is FALSE for the unchanged code:
    C06_Refuted.C06_converges_full_statement_refuted, replayed on the implementation by the harness. *)
 Definition C06_isgr_default_converges_full_statement : Prop :=
@@ -97,37 +109,79 @@ Definition C06_isgr_default_converges_full_statement : Prop :=
   let s := run mkdig (run mkdig sys0 ops) [Pull d; Push d] in
   obs (fst (s d)) = obs (snd (s d)).
 
-(* ======== VERSION-VECTOR sub-protocol (v4, the default) with the default "last write wins" resolver ========
-   Model: VV.v (vector algebra: the C10 model of db.HybridLogicalVector).  Two peers with fixed roles: VA owns the
-   replication and the LWW resolver, VB never resolves.  VEdit / VDelete = local writes (hlc.Now + AddVersion; the wall
-   clock reading [phys] is an arbitrary input of every write, so two sources MAY generate equal values),
-   VPull d / VPush d = one atomic transfer of the sender's current version (CheckChangeVersion, then
-   PutExistingCurrentVersion: IsInConflict, tombstone-over-tombstone, DefaultLWWConflictResolutionType,
-   resolveRemoteWinsHLV / resolveLocalWinsHLV), VPullRetry d body phys = a pull whose write loses its CAS to a local
-   PUT on the active side (the update callback is re-run on the updated document against the same incoming revision
-   and vector).  All theorems quantify over ALL operation lists. *)
+(* ---- the characterisation of the divergence, as far as it is proved.  Three DECIDABLE predicates on histories
+   (Shapes.v, evaluated by running the model on the prefixes): a DELETE / a resurrecting PUT on the active side made
+   while its revision tree has more than one leaf, and a write that leaves a live revision with the body
+   {"_deleted":true} (a resolver answering null).  The conjectured characterisation -- NOT proved in full: ---- *)
+Definition C06_converges_iff_full_statement : Prop :=
+  forall mkdig, collision_free mkdig -> forall pol ops d,
+  shape_free mkdig (ops ++ catch_up pol d) = true ->
+  let s := run mkdig (run mkdig sys0 ops) (catch_up pol d) in
+  obs (fst (s d)) = obs (snd (s d)).
+(* Proved: the histories without deletes (C06_converges_any_resolver_partial, which are shape free but for the third
+   shape, excluded there by policy_ok), and that each of the three shapes is NECESSARY: C06_Refuted.v has, for each, a
+   diverging history with that shape and neither of the others (C06_branched_delete_necessary,
+   C06_branched_resurrect_necessary, C06_unsendable_write_necessary), all replayed on the real replicator.  The
+   remaining direction is supported by random testing of the extracted model and by the harness, which reports any
+   divergence of the implementation on a history without such a step as ':unexplained'. *)
 
-(* ---- convergence: after ANY history -- edits, deletes, resurrections, pulls, pushes on both peers, any number of
-   documents, conflicts of any shape, resolutions not yet pushed back, EQUAL current-version values included --
-   Pull d; Push d leaves both peers with the same current version, body and tombstone flag for d ---- *)
-Theorem C06_lww_converges : forall ops d,
-  let s := vrun (vrun vsys0 ops) [VPull d; VPush d] in
+
+(* ---- at-least-once delivery is harmless: the message a pull (a push) delivered -- stored as it came, resolved either
+   way (the revision that LOST is the parent of the rewritten local revision), merged, or already known -- delivered
+   AGAIN after ANY later history and with ANY resolver is answered "known" and changes nothing ---- *)
+Theorem C06_redelivery_noop : forall mkdig, collision_free mkdig -> forall ops1 ops2 d o msg res',
+  (o = Pull d \/ exists f, o = PullP f d) ->
+  let s0 := run mkdig sys0 ops1 in
+  offer (snd (s0 d)) = Some msg -> unsendable (snd (fst msg)) (snd msg) = false ->
+  (step_status mkdig s0 o = TApplied \/ step_status mkdig s0 o = TKnown) ->
+  let s2 := run mkdig (step mkdig s0 o) ops2 in
+  deliver mkdig res' msg (fst (s2 d)) = (fst (s2 d), TKnown).
+Proof. exact pull_redelivery_noop. Qed.
+Print Assumptions C06_redelivery_noop.
+
+Theorem C06_push_redelivery_noop : forall mkdig, collision_free mkdig -> forall ops1 ops2 d msg res',
+  let s0 := run mkdig sys0 ops1 in
+  offer (fst (s0 d)) = Some msg -> unsendable (snd (fst msg)) (snd msg) = false ->
+  (step_status mkdig s0 (Push d) = TApplied \/ step_status mkdig s0 (Push d) = TKnown) ->
+  let s2 := run mkdig (step mkdig s0 (Push d)) ops2 in
+  deliver mkdig res' msg (snd (s2 d)) = (snd (s2 d), TKnown).
+Proof. exact push_redelivery_noop. Qed.
+Print Assumptions C06_push_redelivery_noop.
+
+(* ======== VERSION-VECTOR sub-protocol (v4, the default) with the default "last write wins" resolver ========
+   Model: VV.v (vector algebra: the C10 model of db.HybridLogicalVector) with the transfer AS THE CODE RUNS IT, VVF.v:
+   when the revision-tree id a resolution is about to write already exists on the local branch, resolveRemoteWinsHLV /
+   resolveLocalWinsHLV tombstone the local revision and add nothing (found in the deepening round and replayed on the
+   real replicator: C06_Refuted.C06_remote_wins_ancestor_diverges, C06_local_wins_rewritten_revision_exists).
+   [clash_free ops] -- decidable, computed by running the model -- says that no resolution of the history does that;
+   the theorems below that were stated without it in the build round are FALSE for the unchanged code without it
+   (C06_lww_converges_full_statement_refuted).  Two peers with fixed roles: VA owns the replication and the LWW resolver,
+   VB never resolves.  VEdit / VDelete = local writes (hlc.Now + AddVersion; the wall clock reading [phys] is an
+   arbitrary input of every write, so two sources MAY generate equal values), VPull d / VPush d = one atomic transfer
+   of the sender's current version, VPullRetry d body phys = a pull whose write loses its CAS to a local PUT on the
+   active side.  All theorems quantify over ALL operation lists. *)
+
+(* ---- convergence: after ANY clash-free history -- edits, deletes, resurrections, pulls, pushes on both peers, any
+   number of documents, conflicts of any shape, resolutions not yet pushed back, EQUAL current-version values included
+   -- Pull d; Push d leaves both peers with the same current version, body and tombstone flag for d ---- *)
+Theorem C06_lww_converges : forall ops d, clash_free (ops ++ [VPull d; VPush d]) = true ->
+  let s := frun (frun vsys0 ops) [VPull d; VPush d] in
   vobs (vdoc_of s VA d) = vobs (vdoc_of s VB d).
-Proof. exact lww_converges. Qed.
+Proof. exact flww_converges. Qed.
 Print Assumptions C06_lww_converges.
 
 (* ---- the single winner: when neither copy has seen the other's current version (and they are not two tombstones),
    the pull resolves the conflict by the LWW policy and after the push BOTH sides show the winner's current version,
    body and tombstone flag ---- *)
-Theorem C06_lww_winner_adopted : forall ops d x y,
-  let s := vrun vsys0 ops in
+Theorem C06_lww_winner_adopted : forall ops d x y, clash_free (ops ++ [VPull d; VPush d]) = true ->
+  let s := frun vsys0 ops in
   vdoc_of s VA d = Some x -> vdoc_of s VB d = Some y ->
   dominates (d_hlv x) (cv (d_hlv y)) = false -> dominates (d_hlv y) (cv (d_hlv x)) = false ->
   d_del x && d_del y = false ->
-  vstatus_of s (VPull d) = (if lww_remote_wins x y then VRemoteWins else VLocalWins) /\
-  let s' := vstep (vstep s (VPull d)) (VPush d) in
+  fstatus_of s (VPull d) = (if lww_remote_wins x y then VRemoteWins else VLocalWins) /\
+  let s' := fstep (fstep s (VPull d)) (VPush d) in
   vobs (vdoc_of s' VA d) = vobs (Some (lww_winner x y)) /\ vobs (vdoc_of s' VB d) = vobs (Some (lww_winner x y)).
-Proof. exact lww_winner_adopted. Qed.
+Proof. exact flww_winner_adopted. Qed.
 Print Assumptions C06_lww_winner_adopted.
 
 (* ---- the LWW policy: a tombstone beats a live document; otherwise the strictly greater value wins ---- *)
@@ -153,66 +207,144 @@ Proof. exact lww_equal_values_local_lemma. Qed.
 Print Assumptions C06_lww_equal_values_local_bias.
 
 (* ---- after a resolution the stored vector has seen the current versions of both sides (a second offer of either
-   is answered "known") ---- *)
+   is answered "known"), clash or not ---- *)
 Theorem C06_lww_resolution_dominates_both : forall l i, simple (d_hlv l) -> simple (d_hlv i) ->
   dominates (d_hlv l) (cv (d_hlv i)) = false -> dominates (d_hlv i) (cv (d_hlv l)) = false ->
-  let r := if lww_remote_wins l i then resolve_remote_wins l i else resolve_local_wins l i in
+  let r := if lww_remote_wins l i then fresolve_remote_wins l i else fresolve_local_wins l i in
   dominates (d_hlv r) (cv (d_hlv l)) = true /\ dominates (d_hlv r) (cv (d_hlv i)) = true.
-Proof. exact resolution_dominates_both. Qed.
+Proof. exact fresolution_dominates_both. Qed.
 Print Assumptions C06_lww_resolution_dominates_both.
 
 (* ---- caught-up peers (same current version, body, tombstone flag -- or no document on either side): Pull and Push
    change nothing on either side and nothing is sent ---- *)
-Theorem C06_vv_caught_up_transfers_nothing : forall ops d,
-  let s := vrun vsys0 ops in
+Theorem C06_vv_caught_up_transfers_nothing : forall ops d, clash_free ops = true ->
+  let s := frun vsys0 ops in
   vobs (vdoc_of s VA d) = vobs (vdoc_of s VB d) ->
-  (forall q d', vdoc_of (vstep s (VPull d)) q d' = vdoc_of s q d') /\
-  (forall q d', vdoc_of (vstep s (VPush d)) q d' = vdoc_of s q d') /\
-  (vstatus_of s (VPull d) = VKnown \/ vstatus_of s (VPull d) = VNothing) /\
-  (vstatus_of s (VPush d) = VKnown \/ vstatus_of s (VPush d) = VNothing).
-Proof. exact vv_caught_up_transfers_nothing. Qed.
+  (forall q d', vdoc_of (fstep s (VPull d)) q d' = vdoc_of s q d') /\
+  (forall q d', vdoc_of (fstep s (VPush d)) q d' = vdoc_of s q d') /\
+  (fstatus_of s (VPull d) = VKnown \/ fstatus_of s (VPull d) = VNothing) /\
+  (fstatus_of s (VPush d) = VKnown \/ fstatus_of s (VPush d) = VNothing).
+Proof. exact fvv_caught_up_transfers_nothing. Qed.
 Print Assumptions C06_vv_caught_up_transfers_nothing.
 
 (* ---- re-running the replication that has just run transfers nothing ---- *)
-Theorem C06_vv_rerun_transfers_nothing : forall ops d,
-  let s := vrun (vrun vsys0 ops) [VPull d; VPush d] in
-  (forall q d', vdoc_of (vstep s (VPull d)) q d' = vdoc_of s q d') /\
-  (forall q d', vdoc_of (vstep s (VPush d)) q d' = vdoc_of s q d') /\
-  (vstatus_of s (VPull d) = VKnown \/ vstatus_of s (VPull d) = VNothing) /\
-  (vstatus_of s (VPush d) = VKnown \/ vstatus_of s (VPush d) = VNothing).
-Proof. exact vv_rerun_transfers_nothing. Qed.
+Theorem C06_vv_rerun_transfers_nothing : forall ops d, clash_free (ops ++ [VPull d; VPush d]) = true ->
+  let s := frun (frun vsys0 ops) [VPull d; VPush d] in
+  (forall q d', vdoc_of (fstep s (VPull d)) q d' = vdoc_of s q d') /\
+  (forall q d', vdoc_of (fstep s (VPush d)) q d' = vdoc_of s q d') /\
+  (fstatus_of s (VPull d) = VKnown \/ fstatus_of s (VPull d) = VNothing) /\
+  (fstatus_of s (VPush d) = VKnown \/ fstatus_of s (VPush d) = VNothing).
+Proof. exact fvv_rerun_transfers_nothing. Qed.
 Print Assumptions C06_vv_rerun_transfers_nothing.
 
 (* ---- a revision that was sent is never answered "already present": CheckChangeVersion filtered it before ---- *)
-Theorem C06_vv_never_cancelled : forall ops o, vstatus_of (vrun vsys0 ops) o <> VCancelled.
-Proof. exact vv_never_cancelled. Qed.
+Theorem C06_vv_never_cancelled : forall ops o, clash_free (ops ++ [o]) = true -> fstatus_of (frun vsys0 ops) o <> VCancelled.
+Proof. exact fvv_never_cancelled. Qed.
 Print Assumptions C06_vv_never_cancelled.
 
 (* ---- every local write succeeds (AddVersion never refuses the generated value) and its version is strictly above
    every version of the writer's source that any copy of any document lists, on either side ---- *)
-Theorem C06_vv_local_write_fresh : forall ops p d body phys,
-  let s := vrun vsys0 ops in
-  exists x, vdoc_of (vstep s (VEdit p d body phys)) p d = Some x /\
+Theorem C06_vv_local_write_fresh : forall ops p d body phys, clash_free ops = true ->
+  let s := frun vsys0 ops in
+  exists x, vdoc_of (fstep s (VEdit p d body phys)) p d = Some x /\
             d_body x = body /\ d_del x = false /\ src (d_hlv x) = vsrc p /\
             (forall q d' y e, vdoc_of s q d' = Some y -> listed (d_hlv y) (vsrc p, e) -> e < ver (d_hlv x)).
-Proof. exact vv_local_write_fresh. Qed.
+Proof. exact fvv_local_write_fresh. Qed.
 Print Assumptions C06_vv_local_write_fresh.
 
 (* ---- reachable copies are consistent: no merge versions, a real source; the same current version on both sides means
    the same body and tombstone flag; two copies that have each seen the other's current version hold the same one ---- *)
-Theorem C06_vv_reachable_consistent : forall ops d x y,
-  let s := vrun vsys0 ops in
+Theorem C06_vv_reachable_consistent : forall ops d x y, clash_free ops = true ->
+  let s := frun vsys0 ops in
   vdoc_of s VA d = Some x -> vdoc_of s VB d = Some y ->
   simple (d_hlv x) /\ simple (d_hlv y) /\
   (cv (d_hlv x) = cv (d_hlv y) -> d_body x = d_body y /\ d_del x = d_del y) /\
   (dominates (d_hlv x) (cv (d_hlv y)) = true -> dominates (d_hlv y) (cv (d_hlv x)) = true -> cv (d_hlv x) = cv (d_hlv y)).
-Proof. exact vv_reachable_consistent. Qed.
+Proof. exact fvv_reachable_consistent. Qed.
 Print Assumptions C06_vv_reachable_consistent.
 
 (* ---- documents are independent under the version-vector protocol too ---- *)
-Theorem C06_vv_documents_independent : forall s o q d, d <> vop_doc o -> vdoc_of (vstep s o) q d = vdoc_of s q d.
-Proof. exact vv_documents_independent. Qed.
+Theorem C06_vv_documents_independent : forall s o q d, d <> vop_doc o -> vdoc_of (fstep s o) q d = vdoc_of s q d.
+Proof. exact fvv_documents_independent. Qed.
 Print Assumptions C06_vv_documents_independent.
+
+(* ---- the faithful model IS the model on vectors wherever no resolution clashes ---- *)
+Theorem C06_vv_clash_free_is_clean : forall ops s, clash_free_from s ops = true -> frun s ops = vrun s ops.
+Proof. exact frun_clean. Qed.
+Print Assumptions C06_vv_clash_free_is_clean.
+
+(* ======== VERSION-VECTOR sub-protocol with ANY resolver and more than two peers (deepening round) ========
+   Model: VVG.v.  Peers are numbered (a peer's number is its source id); GXfer from to res d phys is one atomic transfer
+   of the current version of d held by [from] to [to], which resolves conflicts with [res] -- None on a passive side,
+   Some f on an active side, f ANY function of the two candidates answering local / remote / a merged body:
+   lww_resolver (default), local_resolver (localWins), remote_resolver (remoteWins), anything else (a custom
+   JavaScript resolver).  A merge is db.MergeWithIncomingHLV (new current version from the receiver's clock, both
+   candidates as merge versions), the C10 model, used through C10's update lemmas (HLVOps.merge_repr,
+   HLVUpdate.update_general / update_nothing_lost_iff) -- nothing about the vector algebra is re-proved.
+   The chain A <-> B <-> C: peers 1, 2, 3; 2 is passive towards both ([chain_op]); two-peer replication is the
+   sub-case in which 3 never acts.  [greg_from s ops] (decidable): every step of the history is REGULAR -- no
+   UpdateWithIncomingHLV drops a version ([lossless]), no resolution writes an existing revision-tree id, nothing
+   unsendable is offered.  Each clause is necessary (C06_Refuted.C06_stale_merge_version_diverges,
+   C06_local_wins_rewritten_revision_exists, C06_null_merge_diverges_vv). *)
+
+(* ---- the invariant of the chain holds after every regular history ---- *)
+Theorem C06_chain_invariant : forall ops, Forall chain_op ops -> greg_from gsys0 ops = true -> CInv (grun gsys0 ops).
+Proof. intros ops F R. exact (grun_inv ops gsys0 cinv0 F R). Qed.
+Print Assumptions C06_chain_invariant.
+
+(* ---- two peers, ANY resolver (default, localWins, remoteWins, custom incl. merge): after any regular history,
+   Pull d; Push d leaves the active peer a and the passive peer with the same current version, body and flag ---- *)
+Theorem C06_custom_converges : forall ops a f d phys, Forall chain_op ops -> active a ->
+  greg_from gsys0 (ops ++ [gpull a f d phys; gpush a d]) = true ->
+  let s := grun gsys0 (ops ++ [gpull a f d phys; gpush a d]) in
+  vobs (gdoc s a d) = vobs (gdoc s 2 d).
+Proof. exact custom_converges. Qed.
+Print Assumptions C06_custom_converges.
+
+(* ---- three peers in a chain, any resolvers on A and C, any regular history of edits / deletes on all three and
+   pulls / pushes of A and C in any order: the catch-up A-pull, A-push, C-pull, C-push, A-pull leaves ALL THREE with
+   the same current version, body and tombstone flag ---- *)
+Theorem C06_chain_converges : forall ops fA fC fA' d p1 p2 p3, Forall chain_op ops ->
+  greg_from gsys0 (ops ++ chain_final fA fC fA' d p1 p2 p3) = true ->
+  let s := grun gsys0 (ops ++ chain_final fA fC fA' d p1 p2 p3) in
+  vobs (gdoc s 1 d) = vobs (gdoc s 2 d) /\ vobs (gdoc s 3 d) = vobs (gdoc s 2 d).
+Proof. exact chain_converges. Qed.
+Print Assumptions C06_chain_converges.
+
+(* ---- ... and its last pull never runs a resolver: whatever C made of the conflict (adopted, kept its own, merged)
+   has seen A's current version by the time it reaches A through B, so A answers "known" or stores it as a
+   fast-forward -- no second conflict ---- *)
+Theorem C06_merge_not_reconflicted : forall ops fA fC fA' d p1 p2 p3, Forall chain_op ops ->
+  greg_from gsys0 (ops ++ chain_final fA fC fA' d p1 p2 p3) = true ->
+  let s4 := grun gsys0 (ops ++ [gpull 1 fA d p1; gpush 1 d; gpull 3 fC d p2; gpush 3 d]) in
+  quiet (gstatus_of s4 (gpull 1 fA' d p3)).
+Proof. exact merge_not_reconflicted. Qed.
+Print Assumptions C06_merge_not_reconflicted.
+
+(* ---- a merge has seen both candidates and everything either of them had seen: ANY third copy whose current version
+   one of the two candidates knew accepts the merge without a conflict ---- *)
+Theorem C06_merge_accepted_by_third : forall clk hl hi hz me phys, okv clk hl -> okv clk hi -> okv clk hz -> me <> 0 ->
+  dominates hi (cv hl) = false -> dominates hl (cv hi) = false ->
+  dominates hl (cv hz) = true \/ dominates hi (cv hz) = true ->
+  let v := hlc_now phys (clk me) (N.max (max_value_for_source hl me) (max_value_for_source hi me)) in
+  exists h', merge_with_incoming hl (me, v) hi = Some h' /\
+             dominates h' (cv hl) = true /\ dominates h' (cv hi) = true /\ dominates h' (cv hz) = true /\
+             is_in_conflict hz h' <> Conflict.
+Proof. exact merge_accepted_by_third. Qed.
+Print Assumptions C06_merge_accepted_by_third.
+
+(* ---- re-delivery: the same offer made again right after a regular transfer (applied, resolved either way, merged,
+   refused or known), with any resolver of the same kind of side, stores nothing ---- *)
+Theorem C06_vv_redelivery_noop : forall s from to res d phys res' phys', CInv s ->
+  chain_op (GXfer from to res d phys) -> greg s (GXfer from to res d phys) = true ->
+  let s1 := gstep s (GXfer from to res d phys) in
+  (res' = None <-> res = None) ->
+  gdoc s1 from d = gdoc s from d /\
+  let t := gtransfer res' to phys' (gclk s1 to) (gdoc s1 from d) (gdoc s1 to d) in
+  fst (fst t) = gdoc s1 to d /\ snd t = gclk s1 to /\
+  (snd (fst t) = GKnown \/ snd (fst t) = GNothing \/ snd (fst t) = GConflict).
+Proof. exact redelivery_noop. Qed.
+Print Assumptions C06_vv_redelivery_noop.
 
 (* ---- non-vacuity: a history with an equal-generation conflict resolved as "remote wins" on document 0
    and a "local wins" on document 1 (longer local branch), with a concrete collision-free digest ---- *)
@@ -241,15 +373,50 @@ Definition ex_vops : list vop :=
    VEdit VA 2 2 50; VPush 2; VDelete VA 2 60; VEdit VB 2 4 70; VEdit VA 3 5 80; VEdit VB 3 6 80].
 
 Example C06_vv_nonvacuous :
-  (let s := vrun vsys0 ex_vops in
-   vstatus_of s (VPull 0) = VRemoteWins /\ vstatus_of s (VPull 1) = VLocalWins /\
-   vstatus_of s (VPull 2) = VLocalWins /\ vstatus_of s (VPull 3) = VLocalWins /\
-   vstatus_of s (VPush 0) = VConflict /\
+  clash_free (ex_vops ++ [VPull 0; VPush 0; VPull 1; VPush 1; VPull 2; VPush 2; VPull 3; VPush 3]) = true /\
+  (let s := frun vsys0 ex_vops in
+   fstatus_of s (VPull 0) = VRemoteWins /\ fstatus_of s (VPull 1) = VLocalWins /\
+   fstatus_of s (VPull 2) = VLocalWins /\ fstatus_of s (VPull 3) = VLocalWins /\
+   fstatus_of s (VPush 0) = VConflict /\
    vobs (vdoc_of s VA 0) <> vobs (vdoc_of s VB 0)) /\
-  (let s := vrun (vrun vsys0 ex_vops) [VPull 0; VPush 0; VPull 1; VPush 1; VPull 2; VPush 2; VPull 3; VPush 3] in
+  (let s := frun (frun vsys0 ex_vops) [VPull 0; VPush 0; VPull 1; VPush 1; VPull 2; VPush 2; VPull 3; VPush 3] in
    vobs (vdoc_of s VB 0) = Some ((2, 20), 3, false) /\ vobs (vdoc_of s VA 0) = Some ((2, 20), 3, false) /\
    vobs (vdoc_of s VB 1) = Some ((1, 40), 3, false) /\
    vobs (vdoc_of s VB 2) = Some ((1, 60), 0, true) /\
    vobs (vdoc_of s VB 3) = Some ((1, 80), 5, false)).
 Proof. vm_compute. repeat split; try reflexivity; discriminate. Qed.
 
+
+(* ---- non-vacuity, any resolver and the chain: A and B create the document, C too; A merges (body 9), pushes; C merges
+   again (body 8), pushes; the history is regular, A's closing pull is a fast-forward, all three show C's merge ---- *)
+Definition ex_gops : list gop :=
+  [GEdit 1 0 2 10; GEdit 2 0 3 20; GEdit 3 0 4 30].
+
+Example C06_chain_nonvacuous :
+  let fin := chain_final (rs_fun (RSMerge 9)) (rs_fun (RSMerge 8)) (rs_fun RSDefault) 0 40 50 0 in
+  Forall chain_op ex_gops /\ greg_from gsys0 (ex_gops ++ fin) = true /\
+  (let s := grun gsys0 (ex_gops ++ fin) in
+   vobs (gdoc s 1 0) = Some ((3, 50), 8, false) /\ vobs (gdoc s 2 0) = Some ((3, 50), 8, false) /\
+   vobs (gdoc s 3 0) = Some ((3, 50), 8, false)) /\
+  (let s4 := grun gsys0 (ex_gops ++ [gpull 1 (rs_fun (RSMerge 9)) 0 40; gpush 1 0; gpull 3 (rs_fun (RSMerge 8)) 0 50; gpush 3 0]) in
+   gstatus_of s4 (gpull 1 (rs_fun RSDefault) 0 0) = GApplied /\
+   gstatus_of (grun gsys0 (ex_gops ++ [gpull 1 (rs_fun (RSMerge 9)) 0 40; gpush 1 0])) (gpull 3 (rs_fun (RSMerge 8)) 0 50) = GMerged).
+Proof.
+  cbn zeta. split; [repeat (apply Forall_cons; [cbn; auto|]); apply Forall_nil|]. vm_compute. repeat split; reflexivity.
+Qed.
+
+(* ---- non-vacuity, custom resolvers under the revision-tree protocol: a merge (doc 0), localWins on a shorter local
+   branch (doc 1) ---- *)
+Definition ex_pol : policy := fun _ _ lb _ _ rb => if lb =? 2 then RMerge 9 else RLocal.
+Definition ex_ops_pol : list op := [Edit Act 0 2; Edit Pas 0 3; Edit Act 1 4; Edit Pas 1 5; Edit Pas 1 3].
+
+Example C06_custom_nonvacuous :
+  collision_free mkdig_struct /\ policy_ok ex_pol /\ Forall no_delete ex_ops_pol /\
+  (let s := run mkdig_struct (run mkdig_struct sys0 ex_ops_pol) [PullP ex_pol 0; Push 0; PullP ex_pol 1; Push 1] in
+   cur_body (fst (s 0)) = Some 9 /\ cur_body (snd (s 0)) = Some 9 /\ cur_body (fst (s 1)) = Some 4 /\ cur_body (snd (s 1)) = Some 4 /\
+   obs (fst (s 0)) = obs (snd (s 0)) /\ obs (fst (s 1)) = obs (snd (s 1))).
+Proof.
+  split; [exact mkdig_struct_inj|]. split.
+  - intros ldel l lb rdel r rb mb H. unfold ex_pol in H. destruct (lb =? 2); inversion H. discriminate.
+  - split; [repeat constructor; discriminate|]. vm_compute. repeat split; reflexivity.
+Qed.
